@@ -80,5 +80,5 @@ def kmat(s):
 
 
 def sys_where(s):
-    return dict(d=len(s["A"]), n=len(s["A"][0]), kk=s["kk"], bk=s["bk"], bounded=bounded(s),
+    return dict(nrec=len(s["A"]), nsrc=len(s["A"][0]), kk=s["kk"], bk=s["bk"], bounded=bounded(s),
                 lbpos=any(v > 0 for v in s["lb"]))
